@@ -319,6 +319,13 @@ class Fn:
         callee = t.get("rpath") or t["callee"]
         generic = t["callee"]
         args = tuple(self.origin_operand(a, stack) for a in t["args"])
+        return self.call_expr(bb, t, args, len(stack))
+
+    def call_expr(self, bb, t, args, stack_depth=0):
+        """value of the call at bb given its (already resolved) argument expressions"""
+        callee = t.get("rpath") or t["callee"]
+        generic = t["callee"]
+        stack = (0,) * stack_depth
         if generic in TRANSPARENT_CALLS and args:
             # pure reborrow / identity conversions: the value is its argument
             if generic in ("std::convert::Into::into", "std::convert::From::from", "std::iter::IntoIterator::into_iter"):
